@@ -44,6 +44,7 @@ def sqlite : Grammar where
   prefixBp
     | .not_ => some 30
     | .neg => some 120
+    | .values => some 1      -- `VALUES (..), (..)` inside the parentheses of a row-value IN
     | _ => none
   ternBp
     | .between | .notBetween => some (.and_, 41, true)
